@@ -261,6 +261,28 @@ impl<'a> RunWithPool<'a> for DynNode {
     }
 }
 
+/// "panic": the debug check of `Par::with`; "panic_other": anything else (never expected).
+pub fn panic_kind(p: &Box<dyn std::any::Any + Send>) -> &'static str {
+    let s = if let Some(s) = p.downcast_ref::<&str>() {
+        s.to_string()
+    } else if let Some(s) = p.downcast_ref::<String>() {
+        s.clone()
+    } else {
+        String::new()
+    };
+    if s.contains("conflicting reads / writes") {
+        "panic"
+    } else {
+        "panic_other"
+    }
+}
+
+/// reads()/writes() of a node as abstract resource numbers (0: an id no leaf declared);
+/// `None`: the call itself panicked.
+pub fn node_acc_checked(n: &DynNode) -> Option<(Vec<u32>, Vec<u32>)> {
+    catch_unwind(AssertUnwindSafe(|| node_acc(n))).ok()
+}
+
 pub fn node_acc(n: &DynNode) -> (Vec<u32>, Vec<u32>) {
     let mut r = Vec::new();
     let mut w = Vec::new();
@@ -269,7 +291,7 @@ pub fn node_acc(n: &DynNode) -> (Vec<u32>, Vec<u32>) {
     // ResourceId -> abstract resource number (the dynamic id of the PSlot cell)
     let back = |v: Vec<ResourceId>| -> Vec<u32> {
         v.into_iter()
-            .map(|id| (0..=256u32).find(|x| rid(*x) == id).expect("HARNESS: foreign resource id"))
+            .map(|id| (1..=256u32).find(|x| rid(*x) == id).unwrap_or(0))
             .collect()
     };
     (back(r), back(w))
@@ -278,7 +300,15 @@ pub fn node_acc(n: &DynNode) -> (Vec<u32>, Vec<u32>) {
 /// `$new(k1).with(k2)...` exactly as `par!` / `seq!` expand, each `with` observed.
 macro_rules! chain {
     ($ctor:ident, $n:expr, $evs:expr, $k1:expr $(, $k:expr)*) => {{
-        let p = $ctor::new($k1);
+        let k1 = $k1;
+        let p = match catch_unwind(AssertUnwindSafe(move || $ctor::new(k1))) {
+            Ok(p) => p,
+            Err(e) => {
+                // `new` has no modelled way to fail
+                $evs.push(json!({"ev":"with","n":$n,"i":1,"out":format!("{}_in_new", panic_kind(&e))}));
+                return None;
+            }
+        };
         #[allow(unused_mut, unused_variables)]
         let mut i = 1usize;
         $(
@@ -289,8 +319,8 @@ macro_rules! chain {
                     $evs.push(json!({"ev":"with","n":$n,"i":i,"out":"ok"}));
                     p
                 }
-                Err(_) => {
-                    $evs.push(json!({"ev":"with","n":$n,"i":i,"out":"panic"}));
+                Err(e) => {
+                    $evs.push(json!({"ev":"with","n":$n,"i":i,"out":panic_kind(&e)}));
                     return None;
                 }
             };
@@ -344,8 +374,10 @@ pub fn build_tree(spec: &TreeSpec, n: usize, ctx: &Arc<PCtx>, evs: &mut Vec<Valu
         build_inner(&nd.kind, n, kids, evs)?
     };
     if log_acc {
-        let (r, w) = node_acc(&node);
-        evs.push(json!({"ev":"acc","n":n,"r":r,"w":w}));
+        match node_acc_checked(&node) {
+            Some((r, w)) => evs.push(json!({"ev":"acc","n":n,"out":"ok","r":r,"w":w})),
+            None => evs.push(json!({"ev":"acc","n":n,"out":"panic","r":[],"w":[]})),
+        }
     }
     Some(node)
 }
